@@ -188,6 +188,14 @@ inline const char* classify(int fn, T x, T y)
         return "tgamma_reflection_underflow";
     if (fn == FN_TGAMMA && dbl && x < (T)-171.6)
         return "tgamma_reflection_underflow";
+    // F29: double sin/cos/tan for |x| < 20*pi within 2^-26 of a multiple of pi/2: the medium-range Cody-Waite reduction
+    // keeps ~100 bits of pi/2, so the tiny result (< 1.5e-8) carries a relative error of up to 2.5e4 ulp
+    if ((fn == FN_SIN || fn == FN_COS || fn == FN_TAN) && dbl && std::fabs((double)x) < 64.0)
+    {
+        long double r = remainderl((long double)x, 1.57079632679489661923132169163975144L);
+        if (fabsl(r) < 1.4901161193847656e-08L)
+            return "trig_reduction_near_half_pi_multiple";
+    }
     return "unclassified";
 }
 
